@@ -143,6 +143,35 @@ CHECKS_K1 = {
                 "(scenario trees of <= 4 actions with past due-time offsets, one cancellation, two threads) decides that run.",
         "technique": "function contracts + loop invariant (one arbitrary iteration), PriorityQueue view by contract, symbolic execution of the real methods, SMT",
     },
+    "C35": {
+        "text": "Function, closure and loop contracts on the real periodic-scheduling code. PeriodicScheduler.schedule_periodic (used by the "
+                "virtual-time, timeout, thread-pool, event-loop and asyncio schedulers) makes one schedule_relative(period, P, "
+                "state=state) call and returns a disposable holding that tick; the closure P, by frame induction (no cell is named): "
+                "a live tick calls the action exactly once with the state, reschedules THE SAME closure exactly once on the scheduler "
+                "it was given with the state the action returned and a delay of period - elapsed (so the next tick is due exactly one "
+                "period after this one started: k-th tick at k times the period in virtual time), stores that tick in the disposable "
+                "and changes nothing else (it stays live after any number of ticks); when the action raises the exception propagates, "
+                "the disposable is disposed and nothing is rescheduled; once the disposable is disposed (by the user - which cancels "
+                "the pending tick - or by a raise) P returns without calling the action or scheduling and changes nothing (it stays "
+                "stopped). NewThreadScheduler.schedule_periodic starts exactly one thread and returns a disposable that sets the "
+                "`disposed` event; its run loop is cut at an invariant and one arbitrary iteration (any state, any remaining time, "
+                "flag set or not) is executed: it waits for the remaining time iff positive, tests the disposed flag before EVERY tick "
+                "(also when no wait was due because the action overran the period) and returns when it is set, otherwise calls the "
+                "action exactly once with the current state, keeps the returned state and sets the next wait to period - elapsed; an "
+                "exception of the action ends the loop. EventLoopScheduler.schedule_periodic raises DisposedException when disposed and "
+                "otherwise delegates unchanged. timer/interval: with duetime == period one schedule_periodic(period, A, state=0) call "
+                "whose A(c) emits exactly on_next(c) and returns c + 1 (0, 1, 2, ... at the ticks); otherwise the first tick is "
+                "scheduled at the due time and the tick closure emits the running count, increments it and schedules itself once at "
+                "dt + p (now + p when late).",
+        "note": "Trusted: rxvc; z3; A-time (time values are integer ticks; to_seconds/to_timedelta/to_datetime are identities - their "
+                "agreement is C36's business); the scheduler clock is an opaque monotone reading; actions are opaque (return any state "
+                "or raise); threading.Event is opaque with the contract 'once set it stays set'; the thread factory is opaque (start "
+                "runs the function once on another thread). That the underlying scheduler runs a scheduled tick at its due time is that "
+                "scheduler's own contract (C28 virtual time, C30 trampoline; the real-time schedulers C31/C34 are not claimed). "
+                "CatchScheduler.schedule_periodic is proved under C42; the GUI main-loop schedulers are not under contract. Replay and "
+                "thorough cross-check: periodicrun.py (virtual-time grid + real-thread runs with a 20 ms period) - bounded.",
+        "technique": "function/closure contracts with frame induction, loop invariant (one arbitrary iteration), symbolic execution of the real code, SMT",
+    },
     "C42": {
         "text": "Function and closure contracts on the real CatchScheduler under a class invariant I (handler fixed; a cached recursive "
                 "wrapper is a CatchScheduler with the same handler wrapping `_recursive_original`), each proved from an ARBITRARY object "
